@@ -785,3 +785,98 @@ func isDynCallOfField(in ssa.Instruction, f *types.Var) bool {
 	lf, _ := loadedField(c.Common().Value)
 	return lf == f
 }
+
+func intConstOf(obj types.Object) (int64, bool) {
+	c, ok := obj.(*types.Const)
+	if !ok {
+		return 0, false
+	}
+	return constant.Int64Val(constant.ToInt(c.Val()))
+}
+
+// ---------------------------------------------------------------------------
+// range loops over slices (go/ssa's rotated rangeindex form)
+
+type rangeLoop struct {
+	header, body, done *ssa.BasicBlock
+	idx                ssa.Value // the incremented index used in the body
+	slice              ssa.Value // the ranged slice (from the IndexAddr in the body), may be nil
+}
+
+func findRangeLoops(fn *ssa.Function) []rangeLoop {
+	var out []rangeLoop
+	for _, b := range fn.Blocks {
+		if len(b.Instrs) < 4 {
+			continue
+		}
+		phi, ok := b.Instrs[0].(*ssa.Phi)
+		if !ok {
+			continue
+		}
+		startsMinus1 := false
+		for _, e := range phi.Edges {
+			if v, ok := intConst(e); ok && v == -1 {
+				startsMinus1 = true
+			}
+		}
+		if !startsMinus1 {
+			continue
+		}
+		inc, ok := b.Instrs[1].(*ssa.BinOp)
+		if !ok || inc.Op != token.ADD || inc.X != ssa.Value(phi) {
+			continue
+		}
+		if one, ok := intConst(inc.Y); !ok || one != 1 {
+			continue
+		}
+		cmp, ok := b.Instrs[2].(*ssa.BinOp)
+		if !ok || cmp.Op != token.LSS || cmp.X != ssa.Value(inc) {
+			continue
+		}
+		iff, ok := b.Instrs[3].(*ssa.If)
+		if !ok || iff.Cond != ssa.Value(cmp) {
+			continue
+		}
+		rl := rangeLoop{header: b, body: b.Succs[0], done: b.Succs[1], idx: inc}
+		for _, r := range *inc.Referrers() {
+			if ia, ok := r.(*ssa.IndexAddr); ok && ia.Index == ssa.Value(inc) {
+				rl.slice = ia.X
+			}
+		}
+		out = append(out, rl)
+	}
+	return out
+}
+
+// sliceLitElems: elements of a slice literal `[]T{a, b}` (slice of a fresh array alloc).
+func sliceLitElems(v ssa.Value) []ssa.Value {
+	sl, ok := v.(*ssa.Slice)
+	if !ok {
+		return nil
+	}
+	al, ok := sl.X.(*ssa.Alloc)
+	if !ok {
+		return nil
+	}
+	elems := map[int64]ssa.Value{}
+	for _, r := range *al.Referrers() {
+		ia, ok := r.(*ssa.IndexAddr)
+		if !ok {
+			continue
+		}
+		i, ok := intConst(ia.Index)
+		if !ok {
+			continue
+		}
+		for _, r2 := range *ia.Referrers() {
+			if st, ok := r2.(*ssa.Store); ok && st.Addr == ssa.Value(ia) {
+				elems[i] = st.Val
+			}
+		}
+	}
+	var out []ssa.Value
+	for i := int64(0); i < int64(len(elems)); i++ {
+		out = append(out, elems[i])
+	}
+	return out
+}
